@@ -96,7 +96,7 @@ def merge_desc_nulls_last(
     order_by: list[pl.Expr], descending: list[bool], nulls_last: list[bool | None]
 ) -> list[pl.Expr]:
     merged = []
-    for ord, desc, nl in zip(order_by, descending, nulls_last, strict=True):
+    for i, (ord, desc, nl) in enumerate(zip(order_by, descending, nulls_last, strict=True)):
         # try to avoid this workaround whenever possible
         if nl is not None or desc:
             numeric = ord.rank("dense").cast(pl.Int64)
@@ -106,9 +106,9 @@ def merge_desc_nulls_last(
                 numeric = numeric.fill_null(pl.len().cast(pl.Int64) + 1)
             elif nl is False:
                 numeric = numeric.fill_null(-pl.len().cast(pl.Int64) - 1)
-            merged.append(numeric)
+            merged.append(numeric.alias(f"__order_{i}"))
         else:
-            merged.append(ord)
+            merged.append(ord.alias(f"__order_{i}"))
 
     return merged
 
